@@ -293,7 +293,7 @@ def check(an: Analysis) -> None:
             ob.fail(f, later[-1].ast or later[-1].stmt, "after the result future completed the caller is kept waiting for something else: TimeoutError / the result is reported late (or never, for a function that ignores cancellation)", CFG.show_path([fa] + later))
         for h in [t for t, lab in fa.succ if lab == "exc" and t.kind == "handler"]:
             for kind, node, path in classify_handler(g, h.ast):  # type: ignore[arg-type]
-                if kind != "reraise":
+                if kind not in ("reraise", "reraise-same"):
                     ob.fail(f, h.ast, f"a handler around the await of the result future {kind}s: the caller does not get the future's own outcome", CFG.show_path(path))
 
 
